@@ -39,6 +39,9 @@ type C02Case struct {
 	CBExtra  string             `json:"callback_extra,omitempty"`
 	CBMethod string             `json:"callback_method,omitempty"`
 	Seed     *world.RequestSpec `json:"seed,omitempty"`
+	// CBTwin: the id presented at the callback instead of the seeded request's (which differs from it by '+' for blank, letter
+	// case or surrounding blanks)
+	CBTwin string `json:"callback_id_twin,omitempty"`
 	// PersistFailsOnce: the first attempt to persist the request fails, any further one succeeds
 	PersistFailsOnce bool `json:"persist_fails_once,omitempty"`
 }
@@ -46,7 +49,7 @@ type C02Case struct {
 var seededACS = []string{
 	"https://seed.example/acs?tenant=42&region=eu&copy=1", "https://seed.example/acs?x=&amp;lt;y",
 	"https://seed.example/acs", "https://seed.example/acs?a=1&b=2", "https://seed.example/acs?q=\"x\"&r='y'", "https://seed.example/ä/ö?<tag>", "https://seed.example/acs#frag",
-	"https://seed.example/a b", "https://seed.example/%41%2F?x=%26",
+	"https://seed.example/a b", "https://seed.example/%41%2F?x=%26", "https://seed.example/app#/saml/acs?tenant=1", "https://seed.example/app?x=1#/route?y=2",
 }
 
 func genC02Case(t *rapid.T) C02Case {
@@ -194,6 +197,10 @@ func genC02Case(t *rapid.T) C02Case {
 			ID: "seeded-1", AppID: spec.SPs[s.SP].AppID, RelayState: rapid.SampledFrom(relayStates[1:]).Draw(t, "srs"),
 			ACS: rapid.SampledFrom(seededACS).Draw(t, "sacs"), Binding: rapid.SampledFrom([]string{world.BindPost, world.BindRedirect}).Draw(t, "sbinding"),
 			AuthRequestID: genID(t, "sreqid"), UserID: rapid.SampledFrom([]string{"uid-0", "uid-0", "uid-big"}).Draw(t, "suser"), Done: rapid.IntRange(0, 3).Draw(t, "sdone") != 0,
+		}
+		if rapid.IntRange(0, 3).Draw(t, "cbtwin") == 0 {
+			seed.ID = rapid.SampledFrom([]string{"q83vE+RWeJ+rze8S", "Seeded-Req-1", "seeded-1"}).Draw(t, "cbtwinid")
+			c.CBTwin = map[string]string{"q83vE+RWeJ+rze8S": "q83vE RWeJ rze8S", "Seeded-Req-1": "seeded-req-1", "seeded-1": " seeded-1 "}[seed.ID]
 		}
 		c.Seed = &seed
 		c.CBExtra = extra()
@@ -501,6 +508,17 @@ func c02Run(c C02Case) c02Result {
 		note(lrep)
 		add(c02CheckReply("logout-after-reregistration", lrep, []allowedTarget{{moved.SLO[0].Location, world.BindPost}}, true))
 	case "callback":
+		if c.CBTwin != "" {
+			// the id handed to the callback names no stored request; one that a lenient reading would take it for exists
+			// (blank for '+', other letter case, surrounding blanks): nothing may be delivered anywhere
+			rep := callback(c.CBTwin)
+			note(rep)
+			d := obs.Decode(rep)
+			if d.Kind == obs.KindPostForm || d.Kind == obs.KindRedirectSAML {
+				add(ev.V("C02/delivered-for-an-unknown-request", "callback id %q names no stored request (stored: %q); the reply was delivered to %q", c.CBTwin, c.Seed.ID, d.Target))
+			}
+			break
+		}
 		rep := callback(c.Seed.ID)
 		note(rep)
 		add(c02CheckReply("callback-seeded", rep, []allowedTarget{{c.Seed.ACS, c.Seed.Binding}}, false))
